@@ -178,6 +178,8 @@ def run_pair(ctx, case):
                 rec.play(rid, prior_pf)
             except Exception:  # pylint: disable=broad-except
                 pass
+            except V.Interrupt:
+                pass    # a prior replay whose program does not swallow a recorded interrupt-style exception
         W2 = PS.World('REPLAY')
         cls2 = PS.build_class(P2, rec, W2)
         classes.append(cls2)
